@@ -2938,6 +2938,34 @@ def _st_For_gen(self, st):
 def _orig_st_For_with(self, st, it):
     elems = self.concrete_iter(it)
     fr = self.frames[-1]
+    if elems is None and isinstance(it, Ref):
+        # a short list whose elements are individually known but present only under conditions
+        # ([x for x in (a, b, c) if x]): one guarded iteration per possible element
+        o = self.heap.get(it.oid)
+        if isinstance(o, ListObj) and o.prev_iter is None and 0 < len(o.items) <= UNROLL_MAX and \
+                all(i[0] == "v" and not (isinstance(i[1], Op) and (i[1].op == "splat" or i[1].op.startswith("listmut:"))) for i in o.items):
+            ctl = LoopCtl()
+            fr.loop_stack.append(ctl)
+            self.event("loop_unrolled", (len(o.items),), st)
+            ctl.base_set = flat_set(self.cur_guard_list(state=True))
+            for _, e, g in list(o.items):
+                ctl.cont = []
+                self.guard.append(g)
+                try:
+                    if self.feasible():
+                        self.assign(st.target, e, st)
+                        self.exec_block(st.body)
+                finally:
+                    self.guard.pop()
+            ctl.cont = []
+            brk = list(ctl.brk)
+            fr.loop_stack.pop()
+            if st.orelse:
+                self.guard.append(and_(*[not_(b) for b in brk]))
+                if self.feasible():
+                    self.exec_block(st.orelse)
+                self.guard.pop()
+            return
     if elems is not None and len(elems) <= UNROLL_MAX:
         ctl = LoopCtl()
         fr.loop_stack.append(ctl)
